@@ -11,6 +11,11 @@ CHECKS = {
          "Every string over a 28-character alphabet (covering every token class, multi-byte characters, CR/LF, quotes) up to length 5 (quick) / 6 (thorough), every sequence of up to 3 lexeme atoms from a 200-atom list with and without separators, and the repository's own .sy files are tokenised by the real tokenizer; each result is compared with an independent maximal-munch lexer and an independent line/column index (tiling, positions, kinds, payloads). Complete enumeration of the bounded space, no sampling.",
          "Trusted: the reference lexer of DESIGN.md Appendix D and its line index. Inputs on which the reference finds an error token are compared up to that token and for tiling/positions afterwards. Nothing is claimed for strings longer than the bound other than the corpus files.",
          "DESIGN.md §4 C17, Appendix D"),
+ "C13": ("model_checking",
+         "exhaustive enumeration of expression trees (bounded operator count) printed two ways and re-parsed by the real parser; tree equality against the generator's tree",
+         "Every expression tree with at most 3 (quick) / 4 (thorough) operator nodes over all 13 binary and 2 unary operators, with the leaves rotated through 14 atom kinds (literals, identifier, calls, index, field access, list, tuple, parenthesised if-expression), is printed fully parenthesised and with only the parentheses the documented table requires. Both texts go through the real parser (sylt_parser::tree); the two public parse trees, ignoring spans and parenthesis nodes, must equal each other and the generator's tree. Complete enumeration, no sampling.",
+         "Trusted: the precedence table as written in the property statement and the minimal-parenthesis printer derived from it. Where the table is silent (operand of a unary operator, unary child of * /) the printer always parenthesises, so nothing is demanded there. Value equality follows from tree equality (the compiler only sees the tree) and is additionally covered by C01.",
+         "DESIGN.md §4 C13"),
 }
 
 checks = []
